@@ -45,6 +45,55 @@ pub fn make_golden(force: bool) -> Result<(), String> {
     Ok(())
 }
 
+/// `clh mkgolden --rebin`: keep the stored JSON documents (they are the inputs that must stay
+/// readable) and rewrite only the two MessagePack forms from them with the current tree — used
+/// when a repair changes what binary formats carry (the JSON wire format did not move)
+pub fn rebin_golden() -> Result<(), String> {
+    let dir = golden_dir(backend_str());
+    let path = dir.join("artefacts.jsonl");
+    let txt = std::fs::read_to_string(&path).map_err(|e| format!("{}: {}", path.display(), e))?;
+    let mut out = String::new();
+    let (mut n, mut changed) = (0, 0);
+    for line in txt.lines().filter(|l| !l.trim().is_empty()) {
+        let mut g: Value = serde_json::from_str(line).map_err(|e| e.to_string())?;
+        if let Some((mp, mpn)) = rebin_dispatch(&g) {
+            // same document up to the order of map entries (HashMap iteration order is not part
+            // of it): keep the stored bytes
+            let ty = g["type"].as_str().unwrap_or("").to_string();
+            let same = |stored: &Value, new: &[u8]| {
+                unhex(stored.as_str().unwrap_or("")).map(|old| {
+                    old == new || match (mp_tree(&old).ok(), mp_tree(new).ok()) {
+                        (Some(a), Some(b)) => canon_doc(&ty, &a) == canon_doc(&ty, &b),
+                        _ => false,
+                    }
+                }).unwrap_or(false)
+            };
+            if !(same(&g["msgpack"], &mp) && same(&g["msgpack_named"], &mpn)) {
+                let (mp, mpn) = (json!(hex(&mp)), json!(hex(&mpn)));
+                changed += 1;
+                g["msgpack"] = mp;
+                g["msgpack_named"] = mpn;
+                out.push_str(&serde_json::to_string(&g).unwrap());
+                out.push('\n');
+                n += 1;
+                continue;
+            }
+        }
+        // untouched artefacts keep their line byte for byte
+        out.push_str(line);
+        out.push('\n');
+        n += 1;
+    }
+    std::fs::write(&path, out).map_err(|e| e.to_string())?;
+    eprintln!("golden: {} artefacts, binary forms of {} rewritten in {}", n, changed, dir.display());
+    Ok(())
+}
+
+fn rebin_one<T: Serialize + DeserializeOwned>(g: &Value) -> Option<(Vec<u8>, Vec<u8>)> {
+    let v: T = serde_json::from_value(g["json"].clone()).ok()?;
+    Some((rmp_serde::to_vec(&v).ok()?, rmp_serde::to_vec_named(&v).ok()?))
+}
+
 /// decode one stored artefact three ways and compare; re-serialise and compare with the stored
 /// documents
 fn golden_one<T: Serialize + DeserializeOwned>(g: &Value, eq: &dyn Fn(&T, &T) -> bool) -> (Vec<Value>, u32) {
@@ -67,6 +116,10 @@ fn golden_one<T: Serialize + DeserializeOwned>(g: &Value, eq: &dyn Fn(&T, &T) ->
     checks += 1;
     match to_json_doc(&vj) {
         Out::Ok(d) if canon_doc(ty, &d) == canon_doc(ty, &g["json"]) => {}
+        // a stored document that spells the identity non-canonically (written before the writer
+        // was repaired) must decode, and what is written for it now must be a fixed point
+        Out::Ok(d) if labels.iter().any(|l| l == "noncanonical_identity")
+            && guard(|| serde_json::from_value::<T>(d.clone())).ok().map(|w| eq(&w, &vj) && to_json_doc(&w).ok() == Some(d.clone())).unwrap_or(false) => {}
         Out::Ok(_) => fail("golden_json_stable", "re-serialised JSON document differs from the stored one".into()),
         o => fail("golden_json_stable", format!("{} {}", o.tag(), o.msg())),
     }
@@ -143,6 +196,61 @@ fn golden_check(g: &Value) -> Option<(Vec<Value>, u32)> {
         "PrimaryPredicateInequalityProof" => PrimaryPredicateInequalityProof, "NonRevocProof" => NonRevocProof,
         "NonRevocProofXList" => NonRevocProofXList, "NonRevocProofCList" => NonRevocProofCList,
     )
+}
+
+fn rebin_dispatch(g: &Value) -> Option<(Vec<u8>, Vec<u8>)> {
+    match g["type"].as_str().unwrap_or("") {
+        "BigNumber" => rebin_one::<BigNumber>(g),
+        "Nonce" => rebin_one::<Nonce>(g),
+        "GroupOrderElement" => rebin_one::<vf::GroupOrderElement>(g),
+        "PointG1" => rebin_one::<vf::PointG1>(g),
+        "PointG2" => rebin_one::<vf::PointG2>(g),
+        "PointG2Inf" => rebin_one::<vf::PointG2Inf>(g),
+        "Pair" => rebin_one::<vf::Pair>(g),
+        "CredentialSchema" => rebin_one::<CredentialSchema>(g),
+        "CredentialSchemaBuilder" => rebin_one::<CredentialSchemaBuilder>(g),
+        "NonCredentialSchema" => rebin_one::<NonCredentialSchema>(g),
+        "NonCredentialSchemaBuilder" => rebin_one::<NonCredentialSchemaBuilder>(g),
+        "CredentialValue" => rebin_one::<CredentialValue>(g),
+        "CredentialValues" => rebin_one::<CredentialValues>(g),
+        "CredentialValuesBuilder" => rebin_one::<CredentialValuesBuilder>(g),
+        "CredentialPublicKey" => rebin_one::<CredentialPublicKey>(g),
+        "CredentialPrivateKey" => rebin_one::<CredentialPrivateKey>(g),
+        "CredentialPrimaryPublicKey" => rebin_one::<CredentialPrimaryPublicKey>(g),
+        "CredentialPrimaryPrivateKey" => rebin_one::<CredentialPrimaryPrivateKey>(g),
+        "CredentialKeyCorrectnessProof" => rebin_one::<CredentialKeyCorrectnessProof>(g),
+        "CredentialRevocationPublicKey" => rebin_one::<CredentialRevocationPublicKey>(g),
+        "CredentialRevocationPrivateKey" => rebin_one::<CredentialRevocationPrivateKey>(g),
+        "Accumulator" => rebin_one::<Accumulator>(g),
+        "RevocationRegistry" => rebin_one::<RevocationRegistry>(g),
+        "RevocationRegistryDelta" => rebin_one::<RevocationRegistryDelta>(g),
+        "RevocationKeyPublic" => rebin_one::<RevocationKeyPublic>(g),
+        "RevocationKeyPrivate" => rebin_one::<RevocationKeyPrivate>(g),
+        "Tail" => rebin_one::<Tail>(g),
+        "CredentialSignature" => rebin_one::<CredentialSignature>(g),
+        "PrimaryCredentialSignature" => rebin_one::<PrimaryCredentialSignature>(g),
+        "NonRevocationCredentialSignature" => rebin_one::<NonRevocationCredentialSignature>(g),
+        "SignatureCorrectnessProof" => rebin_one::<SignatureCorrectnessProof>(g),
+        "Witness" => rebin_one::<Witness>(g),
+        "WitnessSignature" => rebin_one::<WitnessSignature>(g),
+        "LinkSecret" => rebin_one::<LinkSecret>(g),
+        "BlindedCredentialSecrets" => rebin_one::<BlindedCredentialSecrets>(g),
+        "CredentialSecretsBlindingFactors" => rebin_one::<CredentialSecretsBlindingFactors>(g),
+        "BlindedCredentialSecretsCorrectnessProof" => rebin_one::<BlindedCredentialSecretsCorrectnessProof>(g),
+        "Predicate" => rebin_one::<Predicate>(g),
+        "PredicateType" => rebin_one::<PredicateType>(g),
+        "Proof" => rebin_one::<Proof>(g),
+        "SubProof" => rebin_one::<SubProof>(g),
+        "AggregatedProof" => rebin_one::<AggregatedProof>(g),
+        "PrimaryProof" => rebin_one::<PrimaryProof>(g),
+        "PrimaryEqualProof" => rebin_one::<PrimaryEqualProof>(g),
+        "PrimaryPredicateInequalityProof" => rebin_one::<PrimaryPredicateInequalityProof>(g),
+        "NonRevocProof" => rebin_one::<NonRevocProof>(g),
+        "NonRevocProofXList" => rebin_one::<NonRevocProofXList>(g),
+        "NonRevocProofCList" => rebin_one::<NonRevocProofCList>(g),
+        "RevocationTailsGenerator" => rebin_one::<RevocationTailsGenerator>(g),
+        _ => None,
+    }
 }
 
 /// the stored credential must still produce an accepted proof, the stored proof must still verify
